@@ -133,6 +133,74 @@ Definition top_run (ops : list top) (s : tstate) : tstate := fold_left (fun s o 
 
 Definition tinit (F0 : tfiles) : tstate := mkT F0 [] (map (fun kv => (fst kv, Hot)) F0).
 
+(* ---- two (or more) overlapping migrations of the SAME file -----------------------------
+   Nothing serialises RunMigrationCycle (a manual POST /api/v1/tiering/migrate may run while
+   the scheduled cycle does): two MigrateFile calls for one file, both listed as candidates
+   while the file was tracked hot, interleave at the granularity of their durable steps. *)
+Inductive mpc := Pc0 | Pc1 | Pc2 | PcDone.      (* next: copy | UpdateTier | delete hot | finished *)
+(* mi_fault = Some rb: this instance's UpdateTier fails; its rollback delete works iff rb *)
+Record minst := mkInst { mi_pc : mpc; mi_fault : option bool }.
+
+Definition inst_step (p : path) (i : minst) (s : tstate) : minst * tstate :=
+  match mi_pc i with
+  | Pc0 => match lookup p (t_hot s) with
+           | Some _ => (mkInst Pc1 (mi_fault i), tapply (TCopy p) s)
+           | None => (mkInst PcDone (mi_fault i), s)          (* source gone: the copy fails *)
+           end
+  | Pc1 => match mi_fault i with
+           | None => (mkInst Pc2 None, tapply (TSetCold p) s)
+           | Some true => (mkInst PcDone (mi_fault i), tapply (TDelCold p) s)
+           | Some false => (mkInst PcDone (mi_fault i), s)
+           end
+  | Pc2 => (mkInst PcDone (mi_fault i), tapply (TDelHot p) s)
+  | PcDone => (i, s)
+  end.
+
+(* a schedule: true = the first instance takes its next step, false = the second one *)
+Fixpoint run_sched (p : path) (sch : list bool) (a b : minst) (s : tstate) : minst * minst * tstate :=
+  match sch with
+  | [] => (a, b, s)
+  | true :: r => let '(a', s') := inst_step p a s in run_sched p r a' b s'
+  | false :: r => let '(b', s') := inst_step p b s in run_sched p r a b' s'
+  end.
+
+(* the code BEFORE 6b8445f: both calls run, interleaved step by step *)
+Definition overlap_unserialized (p : path) (sch : list bool) (fa fb : option bool) (s : tstate) : tstate :=
+  if is_hot_tracked s p then snd (run_sched p sch (mkInst Pc0 fa) (mkInst Pc0 fb) s) else s.
+
+(* Since 6b8445f MigrateFile registers the path in Manager.migrating: a call that starts while
+   another one for the same path is in progress is refused without touching anything.  A call
+   is now [started] by its first scheduled step (no durable effect); it is active from then
+   until it has finished. *)
+Record ginst := mkG { g_started : bool; g_inst : minst }.
+Definition g_active (g : ginst) : bool :=
+  g_started g && match mi_pc (g_inst g) with PcDone => false | _ => true end.
+
+Definition gstep (p : path) (x other : ginst) (s : tstate) : ginst * tstate :=
+  if g_started x then
+    let '(i', s') := inst_step p (g_inst x) s in (mkG true i', s')
+  else if g_active other then (mkG true (mkInst PcDone (mi_fault (g_inst x))), s)     (* refused *)
+  else (mkG true (g_inst x), s).
+
+Fixpoint run_gsched (p : path) (sch : list bool) (a b : ginst) (s : tstate) : ginst * ginst * tstate :=
+  match sch with
+  | [] => (a, b, s)
+  | true :: r => let '(a', s') := gstep p a b s in run_gsched p r a' b s'
+  | false :: r => let '(b', s') := gstep p b a s in run_gsched p r a b' s'
+  end.
+
+Definition overlap (p : path) (sch : list bool) (fa fb : option bool) (s : tstate) : tstate :=
+  if is_hot_tracked s p
+  then snd (run_gsched p sch (mkG false (mkInst Pc0 fa)) (mkG false (mkInst Pc0 fb)) s)
+  else s.
+
+(* operations of the correspondence: the sequential ones plus an overlap *)
+Inductive xop :=
+| XTop (o : top)
+| XOverlap (p : path) (sch : list bool) (fa fb : option bool).
+Definition xop_apply (o : xop) (s : tstate) : tstate :=
+  match o with XTop t => top_apply t s | XOverlap p sch fa fb => overlap p sch fa fb s end.
+
 (* ---- executable oracles ---- *)
 Definition listN_eqb : list N -> list N -> bool := list_eqb N.eqb.
 
@@ -148,7 +216,7 @@ Definition onceb (F0 : tfiles) (s : tstate) : bool := listN_eqb (sortN (tvisible
 
 (* ---- correspondence cases ---- *)
 Record tobs := mkTObs { o_hot : tfiles; o_cold : tfiles; o_meta : list (path * tier); o_vis : list N; o_vis_ok : bool }.
-Record tcase := mkTCase { tc_files : tfiles; tc_ops : list (top * tobs); tc_expect_once : bool }.
+Record tcase := mkTCase { tc_files : tfiles; tc_ops : list (xop * tobs); tc_expect_once : bool }.
 
 Definition tfiles_eqb (a b : tfiles) : bool :=
   (length a =? length b) &&
@@ -161,10 +229,10 @@ Definition tobs_agrees (s : tstate) (o : tobs) : bool :=
   tfiles_eqb (t_hot s) (o_hot o) && tfiles_eqb (t_cold s) (o_cold o) && tmeta_eqb (t_meta s) (o_meta o) &&
   o_vis_ok o && listN_eqb (sortN (tvisible s)) (sortN (o_vis o)).
 
-Fixpoint tops_agree (ops : list (top * tobs)) (s : tstate) : bool :=
+Fixpoint tops_agree (ops : list (xop * tobs)) (s : tstate) : bool :=
   match ops with
   | [] => true
-  | (o, ob) :: r => let s' := top_apply o s in tobs_agrees s' ob && tops_agree r s'
+  | (o, ob) :: r => let s' := xop_apply o s in tobs_agrees s' ob && tops_agree r s'
   end.
 Definition tcase_agrees (c : tcase) : bool := tops_agree (tc_ops c) (tinit (tc_files c)).
 
@@ -181,7 +249,7 @@ Definition tcase_oracle (c : tcase) : bool :=
    end).
 
 Definition tcase_model_oracle (c : tcase) : bool :=
-  let s := top_run (map fst (tc_ops c)) (tinit (tc_files c)) in
+  let s := fold_left (fun s o => xop_apply o s) (map fst (tc_ops c)) (tinit (tc_files c)) in
   readableb (tc_files c) s && (negb (tc_expect_once c) || onceb (tc_files c) s).
 
 (* ---- the order of the durable operations of MigrateFile, for the regenerated parameters ---- *)
